@@ -7,7 +7,7 @@ Model: `Model/Adapt.lean`; vocabulary (`ValidChain`, `SucceedsFrom`, `Determinis
 `Homogeneous`, `OneStep`, `WeakOn`): `Lemmas/AdaptSpec.lean`, `Lemmas/AdaptExtra.lean`.
 -/
 import TraitsVerif.Lemmas.AdaptWitness
-import TraitsVerif.Lemmas.AdaptSource2
+import TraitsVerif.Lemmas.AdaptSource3
 namespace TraitsVerif.Props.C17
 open TraitsVerif TraitsVerif.Model.Adapt TraitsVerif.Lemmas.Adapt
 variable {α : Type}
@@ -478,12 +478,86 @@ every issubclass / MRO table and registry (with non-empty buckets — what
 and raising ones included), adaptee type, adaptee and target, interpreting the source
 of `_adapt` (and of everything it calls) gives the model's result and the model's
 trace of factory calls.  (The result is compared with the path forgotten: `_adapt`
-returns the adapter only; the path is what the trace shows.) -/
+returns the adapter only; the path is what the trace shows.)  No assumption about ties
+in the priority queue: the interpreter refuses to compare two heap entries with equal
+weight triples (`C17_heap_tie_is_stuck` — Python would go on to compare the paths), and
+the proof carries the invariant "every counter in the queue is below the next counter
+value" (`Rel.hlt`) through the interpreted `while` loop, so the comparison is never asked. -/
 theorem C17_search_is_source (cfg : Cfg) (hne : NonEmptyGroups cfg) (f : Factory α) (srcType : Nat)
     (adaptee : α) (target : Nat) :
     runAdapt adaptProg cfg f srcType adaptee target (fuelFor cfg) =
       (viewRes (adaptInner cfg f srcType adaptee target).1, (adaptInner cfg f srcType adaptee target).2) :=
   runAdapt_eq cfg hne f srcType adaptee target (fuelFor cfg)
+
+open TraitsVerif.Model.PyA TraitsVerif.Lemmas.AdaptSource in
+/-- The interpreter does not resolve ties in the priority queue: comparing two entries whose
+weight triples (adapters, MRO steps, counter) are equal is stuck. -/
+theorem C17_heap_tie_is_stuck (a b : Entry) (h1 : a.nAd = b.nAd) (h2 : a.mroSum = b.mroSum)
+    (h3 : a.cnt = b.cnt) : weightLt (α := α) (encEntry a) (encEntry b) = none :=
+  weightLt_tie a b h1 h2 h3
+
+open TraitsVerif.Model.PyA TraitsVerif.Generated.AdaptProg TraitsVerif.Lemmas.AdaptSource in
+/-- **`adapt` is its source**: interpreting `AdaptationManager.adapt` (the identity shortcut
+`provides_protocol(type(adaptee), to_protocol)` taken before anything else — F15 —, the call
+of `_adapt`, `result is None`, `default is AdaptationError`, `raise AdaptationError`,
+`result = default`) gives the model's `adapt`: same outcome as the caller sees it, same
+trace of factory calls; `adaptDefault` is the translated default value of `default`. -/
+theorem C17_adapt_is_source (cfg : Cfg) (hne : NonEmptyGroups cfg) (f : Factory α) (srcType : Nat)
+    (adaptee : α) (target : Nat) (hasDefault : Bool) :
+    runAdaptCall adaptProg cfg f srcType adaptee target adaptDefault hasDefault (fuelFor cfg) =
+      (viewOut adaptee (adapt cfg f srcType adaptee target hasDefault).1,
+       (adapt cfg f srcType adaptee target hasDefault).2) := by
+  have hfuel := fuel_suffices cfg f srcType adaptee target
+  unfold adaptInner at hfuel
+  simp only [runAdaptCall, callEff_adapt cfg hne, adapt, adaptInner]
+  cases hp : cfg.provides srcType target with
+  | true => simp [viewOut]
+  | false =>
+    rcases hl : adaptLoop cfg f adaptee target (fuelFor cfg) (initSt srcType) with ⟨res, tr⟩
+    rw [hl] at hfuel
+    cases res with
+    | found p a => simp [viewOut]
+    | raised e => simp [viewOut]
+    | outOfFuel => exact absurd rfl hfuel
+    | notFound => cases hasDefault <;> simp [viewOut, noneResult, adaptDefault, userDefault]
+
+open TraitsVerif.Model.PyA TraitsVerif.Generated.AdaptProg TraitsVerif.Lemmas.AdaptSource in
+/-- **`supports_protocol` is its source** (`self.adapt(obj, protocol, _MISSING) is not _MISSING`). -/
+theorem C17_supports_is_source (cfg : Cfg) (hne : NonEmptyGroups cfg) (f : Factory α) (srcType : Nat)
+    (adaptee : α) (target : Nat) :
+    runSupportsCall adaptProg cfg f srcType adaptee target (fuelFor cfg) =
+      supportsProtocol cfg f srcType adaptee target := by
+  have hfuel := fuel_suffices cfg f srcType adaptee target
+  unfold adaptInner at hfuel
+  simp only [runSupportsCall, callEff_supports cfg hne, supportsProtocol, adapt, adaptInner]
+  cases hp : cfg.provides srcType target with
+  | true => simp
+  | false =>
+    rcases hl : adaptLoop cfg f adaptee target (fuelFor cfg) (initSt srcType) with ⟨res, tr⟩
+    rw [hl] at hfuel
+    cases res with
+    | found p a => simp
+    | raised e => simp
+    | outOfFuel => exact absurd rfl hfuel
+    | notFound => simp [noneResult]
+
+open TraitsVerif.Model.PyA TraitsVerif.Generated.AdaptProg TraitsVerif.Lemmas.AdaptSource in
+/-- **`register_offer` is its source**: interpreting
+`offers = self._adaptation_offers.setdefault(offer.from_protocol_name, []); offers.append(offer)`
+(the bucket is an alias of the list in the dict) on any registry gives the model's
+`registerOffer`; hence registering a sequence of offers on a fresh manager gives `registry`,
+the registry `C17_registry_nonempty` and `Homogeneous` (F16: buckets are keyed by NAME) speak about. -/
+theorem C17_register_is_source (reg : List (Nat × List Offer)) (o : Offer) (os : List Offer) :
+    runRegisterOffer adaptProg reg o = some (registerOffer reg o) ∧
+    os.foldlM (runRegisterOffer adaptProg) [] = some (registry os) := by
+  refine ⟨register_eq reg o, ?_⟩
+  have fold : ∀ (os : List Offer) (r : List (Nat × List Offer)),
+      os.foldlM (runRegisterOffer adaptProg) r = some (os.foldl registerOffer r) := by
+    intro os
+    induction os with
+    | nil => intro r; rfl
+    | cons o os ih => intro r; simp [List.foldlM_cons, register_eq, ih]
+  exact fold os []
 
 open TraitsVerif.Lemmas.AdaptSource in
 /-- What `register_offer` builds has no empty bucket (`offers[0]` in
@@ -558,6 +632,12 @@ theorem C17_source_sound_minimal {cfg : Cfg} {f : Factory α} {srcType : Nat} {a
   | raised e => simp [viewRes] at h
   | notFound => simp [viewRes] at h
   | outOfFuel => simp [viewRes] at h
+
+-- the interpreted `register_offer`: two offers under one name share a bucket, a third name opens a new one
+open TraitsVerif.Model.PyA TraitsVerif.Generated.AdaptProg in
+example : [⟨0, 0, 2, 0⟩, ⟨1, 1, 2, 0⟩, ⟨2, 3, 2, 3⟩].foldlM (runRegisterOffer adaptProg) [] =
+    some [(0, [⟨0, 0, 2, 0⟩, ⟨1, 1, 2, 0⟩]), (3, [⟨2, 3, 2, 3⟩])] := by
+  rw [(C17_register_is_source [] ⟨0, 0, 0, 0⟩ _).2]; decide
 
 -- the interpreted source on the chain registry: the direct offer declines, the two-step chain is taken
 open TraitsVerif.Model.PyA TraitsVerif.Generated.AdaptProg TraitsVerif.Lemmas.AdaptSource in
